@@ -151,6 +151,23 @@ def gen_intf_desc(rng):
     d["adds"] = [rnd_vlan_list(rng) for _ in range(rng.choice([0, 0, 1, 2]))] if p(0.35) else []
     d["removes"] = [rnd_vlan_list(rng) for _ in range(rng.choice([0, 1, 1, 2]))] if p(0.3) else []
     d["excepts"] = [rnd_vlan_list(rng)] if p(0.15) else []
+    if isinstance(d["allowed"], tuple) and p(0.45):
+        # boundary-correlated stanza: the added list touches / overlaps the ends of what is allowed so far, and the
+        # removed values are the shared boundary values (set arithmetic must not keep a second copy of them)
+        cur = set(d["allowed"][1])
+        lo, hi = min(cur), max(cur)
+        adds = []
+        for _ in range(rng.choice([1, 1, 2])):
+            a = rng.choice([hi, hi, lo, max(1, hi - 1), min(4094, hi + 1)])
+            b = min(4094, a + rng.choice([0, 1, 5, 10]))
+            adds.append(("%d-%d" % (a, b) if b > a else "%d" % a, set(range(a, b + 1))))
+            cur |= adds[-1][1]
+            hi = max(cur)
+        d["adds"] = adds
+        bvals = sorted({lo, max(d["allowed"][1]), min(adds[0][1]), max(adds[-1][1])})
+        pick = rng.sample(bvals, rng.randint(1, len(bvals)))
+        d["removes"] = [(",".join(str(v) for v in sorted(pick)), set(pick))]
+        d["excepts"] = []
     d["channel"] = (rng.choice([1, 2, 48, 255, rng.randint(1, 4096)]), rng.choice(["active", "on", "passive", "desirable"])) if p(0.3) else None
     return d
 
